@@ -6,7 +6,7 @@
      sched-accept <cfg> | <event> <event> ...
      sched-run    <cfg> | <tid> <tid> ...
 
-   <cfg>   = pool=<n>;cap=<n>;fix=<5 bits: shared atomic P12 P13 P14>;exists=<p,p,..>;steps=<step>/<step>/..
+   <cfg>   = pool=<n>;cap=<n>;fix=<7 bits: shared atomic P12 P13 P14 P14b P16>;exists=<p,p,..>;steps=<step>/<step>/..
    <step>  = <id>:<when D|A|N>:<deps>:<outs>:<proc>:<sup C|S|E>:<thor C|S|E>
    <deps>  = comma separated: S<id> | P<path> | G<p.p.p> | I<p.p~p.p> | N        (empty = none)
    <outs>  = <p.p.p>
@@ -62,11 +62,13 @@ let parse_cfg s =
       | None -> failwith ("cfg field " ^ f)) (split_on ';' (Stdlib.String.trim s)) in
   let g k = try Stdlib.List.assoc k kv with Not_found -> failwith ("cfg key " ^ k) in
   let fx = g "fix" in
+  if Stdlib.String.length fx <> 7 then failwith "fix: 7 bits expected";
   let b i = fx.[i] = '1' in
   { c_steps = Stdlib.List.map parse_step (split_on '/' (g "steps"));
     c_exists = nlist ',' (g "exists");
     c_pool = n_of_string (g "pool"); c_cap = n_of_string (g "cap");
-    fix_shared_pool = b 0; fix_atomic_acquire = b 1; fixed_P12 = b 2; fixed_P13 = b 3; fixed_P14 = b 4 }
+    fix_shared_pool = b 0; fix_atomic_acquire = b 1; fixed_P12 = b 2; fixed_P13 = b 3; fixed_P14 = b 4;
+    fixed_P14b = b 5; fixed_P16 = b 6 }
 
 let parse_lstate st fr : lstate =
   (nth_state (int_of_string st), (if fr = "-" then None else Some (nth_event (int_of_string fr))))
@@ -145,6 +147,7 @@ let () =
                  ^ " init=" ^ ini
                  ^ " mixed=" ^ b01 (coq_Known_mixed cfg) ^ " bigerr=" ^ b01 (coq_Known_big_stderr cfg)
                  ^ " therr=" ^ b01 (coq_Known_thread_error cfg) ^ " globabs=" ^ b01 (coq_Known_glob_on_absent_output cfg)
+                 ^ " tbl14b=" ^ b01 table_P14b
                | "sched-accept" ->
                  let evs = Stdlib.List.map parse_event (split_on ' ' (Stdlib.String.trim body)) in
                  (match accept cfg evs with
